@@ -44,7 +44,9 @@ SPEC = dict(
             "exact family: all {-1,0,1} 2x2 without zero rows, structural sublist canonical_ternary of 2x3 and 3x2, D(seed) and G(seed) 3x4, full "
             "triples (c1 in L3^m u L1^m u L2^m, c2 in {1, reversed c1}, (a,b) in 3 pairs); PCGrad: m=2 all 4 schedules x full triples, "
             "m=3 all 216 schedules x light triples on canonical 3x2 with conflicts; Random: {-2,0,3}^m x light triples; UPGrad: reg "
-            "ladder x 4 pref vectors x light triples on full-row-rank 2x2, canonical 2x3, 40 canonical 3x3, D(seed) 2x3, 4 of G(seed) 3x4 (mc/generic.py: D(seed) is rank 2 up to rounding for m, n >= 3)"
+            "ladder x 4 pref vectors x light triples on full-row-rank 2x2, canonical 2x3, 40 canonical 3x3, D(seed) 2x3, 4 of G(seed) 3x4 (mc/generic.py: D(seed) is rank 2 up to rounding for m, n >= 3); special families: ill-conditioned "
+            "(cond 50-200), matrices scaled by 0.05 and 0.002 (sigma_max around norm_eps), an 8x5000 matrix, ConFIG at global scales 1e6/1e-13, native-seed PCGrad/Random "
+            "(float64 and float32, one row 1e4-1e5 times smaller/larger), buffer re-use histories"
         ),
         thorough=(
             "exact family: all 2x2, 2x3, 3x2 without zero rows, canonical 3x3, D(seed) 2x3, 3x4, G(seed) 3x4; PCGrad: all 2x2, 2x3 x 4 schedules x full "
